@@ -212,3 +212,26 @@ Proof.
   - intros x [<-|[]] Hne. exfalso. apply Hne. left. exists (s "/s//p:x"). reflexivity.
   - intros x e [<-|[]] _ Hp. vm_compute in Hp. injection Hp as <-. intros [H _]. discriminate.
 Qed.
+
+(* Non-vacuity 5 (the second open finding, outside `host_only`): the `...` branch compares the label's package with
+   the printed PackageMap keys (`@s//a` for the package a of subrepo s, see gen_package_key) and never looks at the
+   label's subrepo: ///s//a/... expands to the HOST package a; the documented selection is ///s//a:x. *)
+Example C36_subrepo_ellipsis_ranges_over_keys :
+  let g := mk_graph [ (s "s", s "a", [ (s "x", [], false) ]); ([], s "a", [ (s "y", [], false) ]) ] in
+  let L := mk_label (s "s", s "a", s "...") in
+  wf_graph g /\ ~ host_only g L
+  /\ map pkg_key g = [s "@s//a"; s "a"]
+  /\ map un_label (expand_pseudo empty_state g L false) = [([], s "a", s "y")]
+  /\ in_selection [] [] [] g L false (mk_label (s "s", s "a", s "x"))
+  /\ map un_label (expand_pseudo empty_state g (mk_label (s "s", s "a", s "all")) false) = [(s "s", s "a", s "x")].
+Proof.
+  cbv zeta. split; [|split; [|split; [|split; [|split]]]]; try (vm_compute; reflexivity).
+  - split; [vm_compute; repeat constructor; cbn; intuition discriminate|].
+    intros p Hp. vm_compute in Hp.
+    destruct Hp as [<-|[<-|[]]]; (split; [vm_compute; repeat constructor; cbn; intuition discriminate|]);
+      intros t Ht; vm_compute in Ht; intuition (subst; reflexivity).
+  - intros [H _]. discriminate.
+  - eexists _, _. split; [left; reflexivity|]. split; [split; [reflexivity | right; split; [reflexivity | right; left; reflexivity]]|].
+    split; [left; reflexivity|]. split; [reflexivity|]. split; [discriminate|].
+    split; [left; reflexivity|]. split; [intros x [] | intros x e []].
+Qed.
